@@ -5,27 +5,27 @@ V = os.path.dirname(os.path.dirname(os.path.abspath(__file__)))
 
 TEXT = {
  "C01": ("Lean theorems: cursor theorem for the known-size kinds over all programs and all schedules (delivered = 0..min(counter,len), each once); ticket-protocol invariants Inv/OInv for the Iterator wrapper over all fused scripts, programs and schedules (per-thread strictly increasing, no position to two threads). Tie: 11k cases/run, traces identical event by event.", "§7 C01"),
- "C02": ("Lean theorems: every item/chunk/visit output of the known-size model carries the source value of its index; OInv.good + accOk for the wrapper (s[idx] = val for every output of every thread under every schedule).", "§7 C02"),
- "C03": ("Lean theorems: chunk contract of pullRange over the whole 64-bit domain (non-empty iff not at end, ≤ n, short only at the end); wrapper: chunks non-empty, faithful, bounded by the ticket, short only after None.", "§7 C03"),
+ "C02": ("Lean theorems: every item/chunk/visit output of the known-size model carries the source value of its index; OInv.good + accOk for the wrapper (s[idx] = val for every output of every thread under every schedule). Source tie by translation: the Rust functions involved are translated to Lean on every run (tools/rs2lean.py -> Generated/Arith*.lean) and proved, for every machine-word input, to fault nowhere and to compute the model's value with exactly the model's atomic access (GenThms/*.lean): fetch_one of slice/vec/array/range returns (c, element at c) for the counter value c read.", "§7 C02"),
+ "C03": ("Lean theorems: chunk contract of pullRange over the whole 64-bit domain (non-empty iff not at end, ≤ n, short only at the end); wrapper: chunks non-empty, faithful, bounded by the ticket, short only after None. Source tie by translation: the Rust functions involved are translated to Lean on every run (tools/rs2lean.py -> Generated/Arith*.lean) and proved, for every machine-word input, to fault nowhere and to compute the model's value with exactly the model's atomic access (GenThms/*.lean): fetch_n and BufferedIter::next of slice/vec/array return the model's chunk for pullRange; buffered chunks are never empty. Streams include dishonest exact size hints and zero-sized element types.", "§7 C03"),
  "C04": ("Lean theorems: known-size histories hand out a gap-free increasing prefix, later accesses get larger positions; wrapper: per-thread increasing, outputs below yielded ≤ reserved ≤ any later ticket, critical section served in ticket order.", "§7 C04"),
  "C05": ("Lean theorems: the end is a fixpoint of the cursor for every continuation; `completed` is never reset and a pull that starts once it is set receives nothing, under every schedule.", "§7 C05"),
- "C06": ("Lean theorems: after the skip store every continuation delivers nothing (known size); wrapper: skip sets completed, afterwards starting pulls receive nothing; safety invariants hold in histories with skips.", "§7 C06"),
+ "C06": ("Lean theorems: after the skip store every continuation delivers nothing (known size); wrapper: skip sets completed, afterwards starting pulls receive nothing; safety invariants hold in histories with skips. Source tie by translation: the Rust functions involved are translated to Lean on every run (tools/rs2lean.py -> Generated/Arith*.lean) and proved, for every machine-word input, to fault nowhere and to compute the model's value with exactly the model's atomic access (GenThms/*.lean): skip_to_end of the four kinds is one store/swap of the length (Atom.skip) and destroys exactly [min(c,len), len) on the consuming kinds.", "§7 C06"),
  "C07": ("Lean theorems: mutual exclusion of the critical section and of next() for all fused scripts (panics included), programs with skips, schedules; calls happen in position order. Happens-before: Lean theorem hb_chain (vector-clock ghost state over SC interleavings, C11 release/acquire through `yielded`) instantiated with the orderings extracted from the current source on every run; partial: SC interleavings only (stale-read executions are not modelled), synchronisation through `reserved`/`completed` ignored (conservative).", "§7 C07"),
- "C08": ("Lean theorems: consumed ∪ dropped-by-chunk = handed out; handed out ∪ dropped-by-Drop = 0..len exactly once for every program and schedule (no skip/get/wrap); skip_to_end drops the rest (fix for D5); open finding D12 as a kernel-checked witness.", "§7 C08"),
+ "C08": ("Lean theorems: consumed ∪ dropped-by-chunk = handed out; handed out ∪ dropped-by-Drop = 0..len exactly once for every program and schedule (no skip/get/wrap); skip_to_end drops the rest (fix for D5); open finding D12 as a kernel-checked witness. Ownership ledger theorem KS.exactly_once_all_schedules (every program incl. nth consumption, panicking closures, skips; every schedule; both endings) and its lift KSFault.exactly_once_all_schedules_F to a panicking element destructor at any destruction (fault injection `droppanic` in harness and model).", "§7 C08"),
  "C09": ("Lean theorems: known-size wait-freedom (a called op completes with its next own step in every configuration; steps never touch other threads); wrapper: deadlock freedom in every reachable configuration (panics and skips included): some working thread is never waiting, spin iterations are harmless; the ticket holder enters without waiting. Termination under every weakly fair schedule is proved for all programs (single/chunk/buffered pulls, skips, and the looping adaptors) over every wrapped iterator that eventually stops yielding: potential + deadlock freedom + generic fairness lemma.", "§7 C09"),
- "C10": ("Lean theorems: delivered ++ remainder = 0..len for every program and schedule; remainder empty after skip and always in range.", "§7 C10"),
- "C11": ("Lean theorems: reported length = what continuations can deliver, never increases, zero is definitive (known size); wrapper: completed ⇒ 0, exact hint ⇒ len − reserved, monotone.", "§7 C11"),
+ "C10": ("Lean theorems: delivered ++ remainder = 0..len for every program and schedule; remainder empty after skip and always in range. Source tie by translation: the Rust functions involved are translated to Lean on every run (tools/rs2lean.py -> Generated/Arith*.lean) and proved, for every machine-word input, to fault nowhere and to compute the model's value with exactly the model's atomic access (GenThms/*.lean): into_seq_iter of slice and range yields [min(c,len), len) resp. the values [start+min(c,len), stop).", "§7 C10"),
+ "C11": ("Lean theorems: reported length = what continuations can deliver, never increases, zero is definitive (known size); wrapper: completed ⇒ 0, exact hint ⇒ len − reserved, monotone. Source tie by translation: the Rust functions involved are translated to Lean on every run (tools/rs2lean.py -> Generated/Arith*.lean) and proved, for every machine-word input, to fault nowhere and to compute the model's value with exactly the model's atomic access (GenThms/*.lean): try_get_len of the four kinds is one Acquire load c and returns lenOf len c.", "§7 C11"),
  "C12": ("Lean theorems: fold_combine for any commutative monoid over any partition that is a permutation of the source; loops visit the positions of their pulls with the right index; a loop returns only at the end; all positions visited once.", "§7 C12"),
- "C13": ("Lean theorems: the atomic access, counters, history and hand-out log of every step are independent of the adaptor; closures see the same values/indices; remainder identical modulo clone lines; source never dropped.", "§7 C13"),
+ "C13": ("Lean theorems: the atomic access, counters, history and hand-out log of every step are independent of the adaptor; closures see the same values/indices; remainder identical modulo clone lines; source never dropped. Source tie by translation: the Rust functions involved are translated to Lean on every run (tools/rs2lean.py -> Generated/Arith*.lean) and proved, for every machine-word input, to fault nowhere and to compute the model's value with exactly the model's atomic access (GenThms/*.lean): every function of Cloned/Copied and of their buffered chunks over the slice iterator equals the underlying function (same access, index, positions, length, end, skip); cloned() clones exactly the delivered element, copied() nothing.", "§7 C13"),
  "C14": ("Lean theorems by decide over bounds extracted from the current source (sufficiency of Send/Sync bounds, supertraits, borrow shape of chunks), rustc accept/reject twins compiled against the current tree; run-time clause (no two owners) by the ownership ledger over the consuming-kind case stream on the real crate, backed by the ledger theorem KS.exactly_once_all_schedules.", "§7 C14"),
- "C15": ("Lean theorems: allocation ledger of vec/array/wrapper life-cycles is balanced for every length and progress point, and under repetition. Tie: counting allocator, live = 0 on every case.", "§7 C15"),
- "C16": ("Lean theorems over the whole 64-bit domain: chunk ranges are the mathematical ones, range values never overflow, inverted ranges are empty, chunk(0) is a no-op, chunk size 0 panics; open finding H1 (counter wrap) as a kernel-checked witness with the partial theorem.", "§7 C16"),
- "C17": ("Lean theorems: every arithmetic expression of the fixed source stays inside usize on the whole domain (so overflow checks cannot fire); tie: debug and release harness binaries produce identical traces on every case, both equal to the model.", "§7 C17"),
- "C18": ("Lean theorems: safety invariants and no-duplicate hold for panicking wrapped iterators under every schedule; no hang after a panic (deadlock freedom with the unwind guard of fix 3804907, DeadC invariant), witness schedule of the former finding D13 now terminates.", "§7 C18"),
+ "C15": ("Lean theorems: allocation ledger of vec/array/wrapper life-cycles is balanced for every length and progress point, and under repetition. Tie: counting allocator, live = 0 on every case. No element is leaked for any program, schedule, ending and any panicking destructor (corollary of the ownership ledger); the allocation ledger follows the repaired Drop (fix 6a65933: buffer released on the unwinding path too).", "§7 C15"),
+ "C16": ("Lean theorems over the whole 64-bit domain: chunk ranges are the mathematical ones, range values never overflow, inverted ranges are empty, chunk(0) is a no-op, chunk size 0 panics; open finding H1 (counter wrap) as a kernel-checked witness with the partial theorem. Source tie by translation: the Rust functions involved are translated to Lean on every run (tools/rs2lean.py -> Generated/Arith*.lean) and proved, for every machine-word input, to fault nowhere and to compute the model's value with exactly the model's atomic access (GenThms/*.lean): ConIterOfRange::fetch_n/fetch_one/into_seq_iter for every range (empty, inverted, ending at usize::MAX) and chunk size; chunk(0) on the source code is a no-op.", "§7 C16"),
+ "C17": ("Lean theorems: every arithmetic expression of the fixed source stays inside usize on the whole domain (so overflow checks cannot fire); tie: debug and release harness binaries produce identical traces on every case, both equal to the model. Source tie by translation: the Rust functions involved are translated to Lean on every run (tools/rs2lean.py -> Generated/Arith*.lean) and proved, for every machine-word input, to fault nowhere and to compute the model's value with exactly the model's atomic access (GenThms/*.lean): source_never_faults -- no pull, skip or length query of a known-size kind can overflow, index out of range or violate a precondition of ptr::add / Taken::new / slice_from_raw_parts_mut, for every length, counter value and chunk size; the only panic is the documented BufferedIter::new(0).", "§7 C17"),
+ "C18": ("Lean theorems: safety invariants and no-duplicate hold for panicking wrapped iterators under every schedule; no hang after a panic (deadlock freedom with the unwind guard of fix 3804907, DeadC invariant), witness schedule of the former finding D13 now terminates. A panicking element destructor (droppanic) keeps the exactly-once ledger (KSFault).", "§7 C18"),
  "C19": ("Lean theorems: frame (an access on one slot leaves the others unchanged; outputs depend on the own counter only), every slot is its own cursor under every schedule, clone starts at the loaded counter.", "§7 C19"),
 }
 NOTE = ("Trusted: Lean 4.33 kernel (axioms ⊆ propext, Classical.choice, Quot.sound; audited per run by #print axioms); the hand-written model "
-        "lean/Orx/{KS,IW/Core,IW/Full,Sim}.lean, which is tied to the code only by the correspondence check (Rust harness drives the real crate rebuilt "
+        "lean/Orx/{KS,KSFault,IW/Core,IW/Full,Sim}.lean, which is tied to the code by the translator tools/rs2lean.py + lean/Orx/RS/Prim.lean (std primitives as modelled) for the arithmetic of the known-size kinds, and otherwise only by the correspondence check (Rust harness drives the real crate rebuilt "
         "from /repo with --cfg orx_concurrent_iter_verif under a deterministic scheduler, the Lean driver replays the same cases, traces must be identical "
         "on the property's projection) on the cases of the run; python monitors find concrete failing inputs, they do not establish the property; std "
         "semantics (Vec, ManuallyDrop, ptr::read/drop_in_place) as modelled; SC interleavings.")
@@ -46,7 +46,7 @@ def main():
             "engine": "lean-proof+correspondence",
             "level_claimed": {"category": "proof", "text": text, "design_ref": ref},
             "level_note": NOTE,
-            "technique": "Lean 4 theorems (induction over schedules / histories) about an executable model + trace correspondence with the real crate",
+            "technique": "Lean 4 theorems (induction over schedules / histories, invariants, refinement to a sequential cursor) about an executable model; model tied to the source on every run by (a) a Rust-to-Lean translator for the arithmetic core with equivalence theorems and (b) trace correspondence with the real crate under a deterministic scheduler",
         })
     na = []
     if not any(c["property_id"] == "C14" for c in checks):
@@ -67,7 +67,7 @@ def main():
         ],
         "checks": checks,
         "not_applicable": na,
-        "notes": "add_only=false: the hook commit rewrites one `use` line in src/iter/implementors/iter.rs (splitting AtomicBool out of a nested import so that it can be cfg-switched); everything else is added. Fix commits in /repo: 5ddb4aa 6f79ce2 9f68dad 708ebf7 db8941c 56ba366 6a969f3 97b3907 2327103 3804907 edc5d6d 3d988c2 (see known_findings.json).",
+        "notes": "add_only=false: the hook commit rewrites one `use` line in src/iter/implementors/iter.rs (splitting AtomicBool out of a nested import so that it can be cfg-switched); everything else is added. Fix commits in /repo: 5ddb4aa 6f79ce2 9f68dad 708ebf7 db8941c 56ba366 6a969f3 97b3907 2327103 3804907 edc5d6d 3d988c2 6a65933 (see known_findings.json).",
     }
     json.dump(m, open(os.path.join(V, "MANIFEST.json"), "w"), indent=1)
     print("checks:", len(checks), "n/a:", [x["property_id"] for x in na])
